@@ -4,5 +4,6 @@ let () = Driver.main [
   { Driver.name = "spsc_explore"; run = spsc_explore_run; judge = spsc_explore_judge };
   { Driver.name = "cursor"; run = cursor_run; judge = cursor_judge };
   { Driver.name = "rxring"; run = rxring_run; judge = rxring_judge };
+  { Driver.name = "txrings"; run = txrings_run; judge = txrings_judge };
   { Driver.name = "worker"; run = worker_run; judge = worker_judge };
 ]
